@@ -80,6 +80,34 @@ Proof.
     + intros [_ [_ H]]. apply H. discriminate.
 Qed.
 
+(* a configuration that NAMES remote peers never becomes "no remote filter": construction either
+   fails or yields one parsed peer per entry *)
+Lemma accept_parse_remotes_spec decode l rs :
+  accept_parse_remotes decode l = Ok rs ->
+  length rs = length l /\ (forall r, In r rs <-> exists x, In x l /\ decode x = Some r).
+Proof.
+  revert rs; induction l as [|x l IH]; intros rs H; cbn [accept_parse_remotes] in H.
+  - inversion H; subst. split; [reflexivity|]. intros r; split; [intros []|intros [x [[] _]]].
+  - destruct (decode x) as [p|] eqn:D; [|discriminate].
+    destruct (accept_parse_remotes decode l) as [r'|k|] eqn:E; cbn [obind] in H; try discriminate.
+    inversion H; subst. destruct (IH r' eq_refl) as [L K]. split; [cbn; congruence|].
+    intros r; cbn [In]. rewrite K. split.
+    + intros [<-|[y [Hy Dy]]]; [exists x; auto|exists y; auto].
+    + intros [y [[<-|Hy] Dy]]; [left; congruence|right; exists y; auto].
+Qed.
+
+Lemma accept_named_remotes decode cp cl strs s :
+  strs <> [] -> accept_from_config decode cp cl strs s = 1%nat ->
+  exists x, In x strs /\ decode x = Some (s_remote s).
+Proof.
+  intros Hne. unfold accept_from_config.
+  destruct (accept_parse_remotes decode strs) as [rs|k|] eqn:E; try discriminate.
+  destruct (accept_parse_remotes_spec _ _ _ E) as [L K].
+  destruct (accept_offers (AcceptCfg cp cl rs) s) eqn:O; [|discriminate]. intros _.
+  apply accept_spec in O as [_ [_ O]]. apply K. apply O.
+  destruct rs; [destruct strs; [contradiction|discriminate]|discriminate].
+Qed.
+
 Lemma any_eq_spec x l acc : any_eq x l acc = true <-> acc = true \/ In x l.
 Proof.
   revert acc; induction l as [|y l IH]; intros acc; cbn [any_eq].
